@@ -33,8 +33,11 @@ Hypotheses beyond the scalar laws (all satisfied by the real data):
   it because `e.seeds` is the iteration of a hash *set* (`std::unordered_set`) of base levels;
 * `hbase`  : `e.isBase` is the membership test of that set.
 
-The scalar laws are only: `lt` is a strict weak order, `x < nextUp x`, and the slope towards a
-strictly lower neighbour compares above `lowest`.  Neither linearity (`antisymm`, false of ±0)
+* `hslope` : a positive drop over a distance *reported by the grid* compares above `lowest`
+  (`Fs.C04.HSlope`; over a field: reported distances are positive and `lowest ≤ 0`).  This used to
+  be a scalar law quantified over all distances, which no field satisfies.
+
+The scalar laws are only: `lt` is a strict weak order and `x < nextUp x`.  Neither linearity (`antisymm`, false of ±0)
 nor monotonicity of `nextUp` is needed, so `Fs.UB.Laws` is not required here. -/
 namespace Fs.C01
 open Fs Fs.Flow Fs.C02
@@ -49,20 +52,12 @@ structure ScalarLaws (S : Scalar α) : Prop where
   /-- negative transitivity (strict weak order) -/
   ntrans : ∀ a b c, S.lt a b = false → S.lt b c = false → S.lt a c = false
   next_gt : ∀ x, S.lt x (S.nextUp x) = true
-  slope_above_lowest : ∀ a b d, S.lt b a = true → S.lt S.lowest (S.div (S.sub a b) d) = true
 
 theorem ScalarLaws.flood {S : Scalar α} (L : ScalarLaws S) : Fs.Laws (ordOf S) :=
   ⟨L.next_gt, L.trans⟩
 
 theorem ScalarLaws.router {S : Scalar α} (L : ScalarLaws S) : Fs.Router.Laws (routerOps S) :=
   ⟨L.irrefl, L.trans, L.ntrans⟩
-
-theorem ScalarLaws.hlow {S : Scalar α} (L : ScalarLaws S) (mask : Nat → Bool) (f : Nat → α) :
-    ∀ i p, Fs.Router.cand (routerOps S) mask f i p = true →
-      S.lt S.lowest (S.div (S.sub (f i) (f p.1)) p.2) = true := by
-  intro i p hc
-  simp only [Fs.Router.cand, Bool.and_eq_true] at hc
-  exact L.slope_above_lowest _ _ _ hc.2
 
 /-! ### the counting argument: the flood loop terminates within `n` pops -/
 
@@ -383,41 +378,42 @@ end flood
 
 section router
 variable (S : Scalar α) (L : ScalarLaws S) (e : Env α) (par : Bool) (f : Nat → α)
+  (hlow : Fs.C04.HLow S e f)
 
-include L in
+include L hlow in
 /-- a proper receiver step goes strictly downhill to an unmasked neighbour, and only routed
 (unmasked, non-base) nodes take one -/
 theorem recv_step (i : Nat) (hi : i < e.topo.n) (hne : recv0 (singleRouter S e par f) i ≠ i) :
     S.lt (f (recv0 (singleRouter S e par f) i)) (f i) = true ∧
     e.mask (recv0 (singleRouter S e par f) i) = false ∧
     recv0 (singleRouter S e par f) i ∈ nbIdx e.topo i ∧ (e.mask i || e.isBase i) = false := by
-  rcases Fs.C04.recv_lower S e par f L.router i hi (L.hlow e.mask f) with h | ⟨h1, h2, h3, p, hp, hpe⟩
+  rcases Fs.C04.recv_lower S e par f L.router i hi hlow with h | ⟨h1, h2, h3, p, hp, hpe⟩
   · exact absurd h hne
   · exact ⟨h1, h2, List.mem_map.mpr ⟨p, hp, hpe⟩, h3⟩
 
-include L in
+include L hlow in
 theorem recv_lt (hnb : ∀ i, i < e.topo.n → ∀ p, p ∈ e.topo.nbrs i → p.1 < e.topo.n)
     (i : Nat) (hi : i < e.topo.n) : recv0 (singleRouter S e par f) i < e.topo.n := by
   by_cases h : recv0 (singleRouter S e par f) i = i
   · rw [h]; exact hi
-  · exact nbIdx_lt e hnb i hi _ (recv_step S L e par f i hi h).2.2.1
+  · exact nbIdx_lt e hnb i hi _ (recv_step S L e par f hlow i hi h).2.2.1
 
 theorem iter_fix (r : Nat → Nat) (k i : Nat) (h : r i = i) : Dfs.iter r k i = i := by
   induction k with
   | zero => rfl
   | succ k ih => simp only [Dfs.iter, h]; exact ih
 
-include L in
+include L hlow in
 /-- after one or more receiver steps from a node that is not its own receiver the elevation is
 strictly lower -/
 theorem iter_desc (hnb : ∀ i, i < e.topo.n → ∀ p, p ∈ e.topo.nbrs i → p.1 < e.topo.n)
     (k i : Nat) (hi : i < e.topo.n) (hne : recv0 (singleRouter S e par f) i ≠ i) :
     S.lt (f (Dfs.iter (recv0 (singleRouter S e par f)) (k + 1) i)) (f i) = true := by
   induction k generalizing i with
-  | zero => exact (recv_step S L e par f i hi hne).1
+  | zero => exact (recv_step S L e par f hlow i hi hne).1
   | succ k ih =>
-    have h1 := (recv_step S L e par f i hi hne).1
-    have hj := recv_lt S L e par f hnb i hi
+    have h1 := (recv_step S L e par f hlow i hi hne).1
+    have hj := recv_lt S L e par f hlow hnb i hi
     show S.lt (f (Dfs.iter _ (k + 1) (recv0 (singleRouter S e par f) i))) (f i) = true
     by_cases hfix : recv0 (singleRouter S e par f) (recv0 (singleRouter S e par f) i) =
         recv0 (singleRouter S e par f) i
@@ -430,6 +426,7 @@ end router
 
 section compose
 variable (S : Scalar α) (L : ScalarLaws S) (e : Env α) (par : Bool) (z : Nat → α)
+  (hslope : Fs.C04.HSlope S e)
 
 /-- the elevation returned by the executed flood -/
 abbrev filled : Nat → α := look (pflood S e z) S.zero
@@ -437,7 +434,7 @@ abbrev filled : Nat → α := look (pflood S e z) S.zero
 /-- the receiver function of the graph the router builds on the filled elevation -/
 abbrev frecv : Nat → Nat := recv0 (singleRouter S e par (filled S e z))
 
-include L in
+include L hslope in
 /-- a node connected to an unmasked base level that is its own receiver is an unmasked base level:
 otherwise the flood closed it with a strictly lower unmasked neighbour (its parent), which the
 router would have preferred to the node itself -/
@@ -466,7 +463,7 @@ theorem terminal_is_seed
       · rw [(seedP_iff e i).mpr ⟨(hbase i).mp hb, hm⟩] at hs'; cases hs'
     have h' : (e.mask i || e.isBase i) = false := by simp [hm, hb]
     obtain ⟨r, d, h1, _, _, hspec⟩ := Fs.C04.routed_row S e par (filled S e z) L.router i hi h'
-      (L.hlow e.mask (filled S e z) i)
+      (hslope.hlow (filled S e z) i hi)
     have hr0 : frecv S e par z i = r := by simp [frecv, recv0, h1]
     unfold Fs.C04.RoutedSpec at hspec
     rcases hspec with ⟨_, hnone⟩ | ⟨q, _, hl, g1, _, _⟩
@@ -478,7 +475,7 @@ theorem terminal_is_seed
       rw [hqi, L.irrefl] at hl'
       simp at hl'
 
-include L in
+include L hslope in
 /-- following receivers from a node connected to an unmasked base level stays among such nodes -/
 theorem iter_reach
     (hnb : ∀ i, i < e.topo.n → ∀ p, p ∈ e.topo.nbrs i → p.1 < e.topo.n)
@@ -491,10 +488,10 @@ theorem iter_reach
     show Dfs.iter _ k (frecv S e par z i) < _ ∧ Fs.Reach _ _ _ (Dfs.iter _ k (frecv S e par z i))
     by_cases hfix : frecv S e par z i = i
     · rw [hfix]; exact ih i hi hr
-    · obtain ⟨_, h2, h3, _⟩ := recv_step S L e par (filled S e z) i hi hfix
-      exact ih _ (recv_lt S L e par (filled S e z) hnb i hi) (Fs.Reach.step i _ hr h3 h2)
+    · obtain ⟨_, h2, h3, _⟩ := recv_step S L e par (filled S e z) (hslope.hlow _) i hi hfix
+      exact ih _ (recv_lt S L e par (filled S e z) (hslope.hlow _) hnb i hi) (Fs.Reach.step i _ hr h3 h2)
 
-include L in
+include L hslope in
 /-- **C01, executed composition priority flood → single-direction router.**
 `z'` is the elevation `pflood` returns, `recv` the receiver function of the graph `singleRouter`
 builds on it (sequential or multi-threaded variant).  (1) base-level and masked nodes drain
@@ -524,13 +521,13 @@ theorem C01_pflood_singleRouter
     show recv0 (singleRouter S e par z') i = i
     simp [recv0, (Fs.C04.terminal_row S e par z' i hi h).1]
   · intro i hi hne
-    obtain ⟨h1, h2, h3, _⟩ := recv_step S L e par z' i hi hne
+    obtain ⟨h1, h2, h3, _⟩ := recv_step S L e par z' (hslope.hlow _) i hi hne
     exact ⟨h1, h2, h3⟩
   · intro i hi hr
-    obtain ⟨k, hk⟩ := (Fs.C06.singleRouter_graph S e par z' L.router hnb (L.hlow e.mask z')).forest i hi
+    obtain ⟨k, hk⟩ := (Fs.C06.singleRouter_graph S e par z' L.router hnb (hslope.hlow z')).forest i hi
     rw [← Fs.C06.recv0_single S e par z'] at hk
-    obtain ⟨htn, htr⟩ := iter_reach S L e par z hnb k i hi hr
-    have hseed := terminal_is_seed S L e par z hnb hsym hseeds hnodup hbase _ htn htr hk
+    obtain ⟨htn, htr⟩ := iter_reach S L e par z hslope hnb k i hi hr
+    have hseed := terminal_is_seed S L e par z hslope hnb hsym hseeds hnodup hbase _ htn htr hk
     obtain ⟨s1, s2⟩ := (seedP_iff e _).mp hseed
     exact ⟨k, (hbase _).mpr s1, s2, hk⟩
   · intro i hi k hk hcyc
@@ -540,7 +537,7 @@ theorem C01_pflood_singleRouter
       by_cases hfix : recv i = i
       · exact hfix
       · exfalso
-        have := iter_desc S L e par z' hnb k i hi hfix
+        have := iter_desc S L e par z' (hslope.hlow _) hnb k i hi hfix
         have hcyc' : Dfs.iter (recv0 (singleRouter S e par z')) (k + 1) i = i := hcyc
         rw [hcyc', L.irrefl] at this
         cases this
@@ -573,13 +570,18 @@ theorem exS_laws : ScalarLaws exS where
   trans a b c h1 h2 := by simp only [exS, decide_eq_true_eq] at *; omega
   ntrans a b c h1 h2 := by simp only [exS, decide_eq_false_iff_not] at *; omega
   next_gt x := by simp only [exS, decide_eq_true_eq]; omega
-  slope_above_lowest a b d h := by
-    simp only [exS, decide_eq_true_eq] at *
-    split
-    · rename_i hd
-      have : 0 ≤ (a - b) / d := Int.ediv_nonneg (by omega) (by omega)
-      omega
-    · omega
+
+/-- a positive drop over a distance of the instance compares above `lowest` (this holds for every
+distance here because `exS.div` returns `0` for a non-positive one; over a field it holds for the
+positive distances a grid reports, see `Fs.Closed`) -/
+theorem exE_hslope (e : Env Int) : Fs.C04.HSlope exS e := by
+  intro a b i _ p _ h
+  simp only [exS, decide_eq_true_eq] at *
+  split
+  · rename_i hd
+    have : 0 ≤ (a - b) / p.2 := Int.ediv_nonneg (by omega) (by omega)
+    omega
+  · omega
 
 /-- a four-node profile `0 - 1 - 2 - 3`; node 0 is the base level, node 2 is a pit of the input
 elevation `5 7 1 9` (the flood raises it to 8) -/
@@ -609,7 +611,7 @@ theorem exE_hbase : ∀ b, exE.isBase b = true ↔ b ∈ exE.seeds := by
 
 /-- the hypotheses of `C01_pflood_singleRouter` hold on this instance, so its conclusions do -/
 example :=
-  C01_pflood_singleRouter exS exS_laws exE false exZ exE_hnb exE_hsym (by decide) (by decide) exE_hbase
+  C01_pflood_singleRouter exS exS_laws exE false exZ (exE_hslope exE) exE_hnb exE_hsym (by decide) (by decide) exE_hbase
 
 /-- and they are what the model computes: filled elevation `5 7 8 9`, receivers `0 0 1 2` -/
 example : (List.range 4).map (look (pflood exS exE exZ) exS.zero) = [5, 7, 8, 9] ∧
